@@ -2,7 +2,8 @@
 From LV Require Import Base Toml Serde Inventory InventoryFacts InventoryToml.
 
 Record query := mkQ { q_os : os; q_arch : arch; q_req : req;
-                      q_partial : option nat; q_total : option nat }.   (* observed indices *)
+                      q_partial : option nat; q_total : option nat;
+                      q_pnan : option nat }.      (* partial_resolve with self-incomparable versions *)   (* observed indices *)
 
 Inductive cks_obs :=
 | CkOk (name value : bytes) (shown : option bytes) (reparse_eq : bool)
@@ -42,6 +43,7 @@ Fixpoint tarts_eqb (x y : list tart) : bool :=
 Definition query_holds (arts : list artifact) (q : query) : bool :=
   let sel := art_sel (q_os q) (q_arch q) (q_req q) in
   chk_resolve a_ver sel ver_pcmp arts (q_partial q) &&
+  chk_resolve a_ver sel ver_pcmp_nan arts (q_pnan q) &&
   chk_resolve a_ver sel (fun a b => Some (ver_cmp a b)) arts (q_total q).
 
 Definition holds (c : case) : bool :=
